@@ -1151,6 +1151,40 @@ def c08_molecules(run, rng, budget):
         yield m, {"use_codes": False, "blank_coords": False, "mass_diff": True, "short_lines": False}
 
 
+def malformed_v2000(run):
+    """V2000 files that are not connection tables: the reader and the model must agree on the outcome (both reject, or both read
+    the same thing); own random stream"""
+    import random as _random
+    rng = _random.Random(f"malformed-v2000-{os.environ.get('VERIF_SEED', '0')}")
+    for k in range(24):
+        m = G.gen_mol(rng, max_n=5)
+        while m.n() < 2 or not m.bonds:
+            m = G.gen_mol(rng, max_n=5)
+        text, _ = RD.render_v2000(m, rng, {"crlf": False, "atom_lists": False})
+        ls = text.split("\n")
+        nb = 4 + m.n()                     # first bond line
+        kind = k % 8
+        if kind == 0:
+            ls[nb] = f"{m.n() + 7:3d}" + ls[nb][3:]                    # first bond end does not exist
+        elif kind == 1:
+            ls[nb] = ls[nb][:3] + f"{m.n() + 7:3d}" + ls[nb][6:]        # second bond end does not exist
+        elif kind == 2:
+            ls[3] = f"{m.n() + 3:3d}" + ls[3][3:]                       # more atoms announced than there are
+        elif kind == 3:
+            ls = [l for l in ls if not l.startswith("M  END")]          # no end marker
+        elif kind == 4:
+            ls[3] = ls[3][:5]                                           # counts line cut short
+        elif kind == 5:
+            ls[nb] = "  0" + ls[nb][3:]                                 # bond to atom 0
+        elif kind == 6:
+            ls[4] = ls[4][:31] + "Xx " + ls[4][34:]                     # unknown element symbol
+        else:
+            ls = ls[:4]                                                 # nothing after the counts line
+        run.stats["malformed_v2000"] += 1
+        line, real, _ = R.op_moltext("\n".join(ls))
+        run.corr(line, real, "atom-order")
+
+
 def work_C08(run, rng, budget):
     string_layer_ops(run, rng, 100 * budget)
     exotic_stream(run, rng, 120 * budget, RD.render_v2000)
@@ -1194,6 +1228,7 @@ def work_C08(run, rng, budget):
     for f in repo_molfiles("v2000"):
         line, real, _ = R.op_moltext(open(f).read())
         run.corr(line, real, "atom-order")
+    malformed_v2000(run)
     return "abstract molecules rendered as V2000 (charge codes vs M  CHG/RAD lines with decoy codes, 1-8 entries per property " \
            "line over several lines, D/T symbols together with M  ISO lines, unrelated property lines, atom lists, short " \
            "lines, CRLF) and as V3000; both read by the real readers and compared with the molecule and with each other; " \
